@@ -121,7 +121,8 @@ def t_str_nul(facts, res, tier):
                 callers[f["name"]] += 1
     res.inst("T-STR-NUL:decoder-callers", True, callers)
     if "parse_int" not in callers:
-        res.fail("T-STR-NUL:decoder-callers", facts.where(facts.fn("parse_int", "")), "character constants do not go through the string escape decoder")
+        pi = [f for f in facts.fns_named("parse_int") if "quoted_character" in expr_text(f["body"])] or facts.fns_named("parse_int")
+        res.fail("T-STR-NUL:decoder-callers", facts.where(pi[0]) if pi else "src/compile.rs", "character constants do not go through the string escape decoder")
 
 
 # ----------------------------------------------------------------------------- C10
